@@ -57,6 +57,11 @@ def st_case(tier):
                             "hold": draw(st.booleans()), "hole": hole})
             progs.append(ops)
         return {"kind": kind, "M": M, "S": S, "wins": [list(w) for w in wins], "register": register, "progs": progs,
+                # data width of the bus (the region decoders turn byte windows into word-address predicates)
+                "dw": draw(st.sampled_from([32, 32, 64])),
+                # slaves that answer some requests with err - together with ack, or instead of it
+                "err": [draw(st.one_of(st.none(), st.none(), bench.st_schedule())) for _ in range(S)],
+                "err_only": draw(st.booleans()),
                 "go": [draw(st.one_of(st.just(["const", 1]), bench.st_schedule())) for _ in range(S)],
                 "seed": draw(st.integers(0, 2 ** 16))}
     return case()
@@ -73,11 +78,17 @@ def run_case(case):
     from litex.soc.integration.soc import SoCRegion
     kind, M, S = case["kind"], case["M"], case["S"]
     top = Module()
-    masters = [wishbone.Interface(data_width=32, adr_width=30, addressing="word") for _ in range(M)]
-    slaves = [wishbone.Interface(data_width=32, adr_width=30, addressing="word") for _ in range(S)]
+    dw = case.get("dw", 32)
+    nb = dw // 8
+    ash = nb.bit_length() - 1          # byte address -> word address
+    masters = [wishbone.Interface(data_width=dw, adr_width=32 - ash, addressing="word") for _ in range(M)]
+    slaves = [wishbone.Interface(data_width=dw, adr_width=32 - ash, addressing="word") for _ in range(S)]
     regions = [SoCRegion(origin=o, size=s) for o, s in case["wins"]]
     register = case["register"] and kind in ("shared", "crossbar", "decoder")
-    decs = [(r.decoder(_Bus), s) for r, s in zip(regions, slaves)]
+
+    class _B(_Bus):
+        data_width = dw
+    decs = [(r.decoder(_B), s) for r, s in zip(regions, slaves)]
     if kind == "shared":
         top.submodules.dut = wishbone.InterconnectShared(masters, decs, register=register, timeout_cycles=case.get("timeout"))
     elif kind == "crossbar":
@@ -90,23 +101,33 @@ def run_case(case):
         top.submodules.dut = wishbone.InterconnectPointToPoint(masters[0], slaves[0])
     smods = []
     for j, s in enumerate(slaves):
-        sm = wb.WBMemSlave(s, 16, [(case["seed"] * 7 + j * 1000 + i * 13) & 0xffffffff for i in range(16)], min_latency1=register)
+        sm = wb.WBMemSlave(s, 16, [(case["seed"] * 7 + j * 1000 + i * 13) & 0xffffffff for i in range(16)], min_latency1=register,
+                           err_only=bool(case.get("err_only")))
         top.submodules += sm
         smods.append(sm)
-    models = [wb.ByteMem(64, [((case["seed"] * 7 + j * 1000 + (i // 4) * 13) >> (8 * (i % 4))) & 0xff for i in range(64)]) for j in range(S)]
+    models = [wb.ByteMem(16 * nb, [(((case["seed"] * 7 + j * 1000 + (i // nb) * 13) & 0xffffffff) >> (8 * (i % nb))) & 0xff for i in range(16 * nb)])
+              for j in range(S)]
     # requests: dat_w carries the master tag in its top byte (also for reads)
     agents = []
     mags = []
     for m in range(M):
         ops = []
         for o in case["progs"][m]:
-            ops.append({"we": o["we"], "adr": o["badr"] >> 2, "dat": ((m + 1) << 24) | o["dat"], "sel": o["sel"], "gap": o["gap"],
+            ops.append({"we": o["we"], "adr": o["badr"] >> ash, "dat": ((m + 1) << 24) | o["dat"], "sel": o["sel"], "gap": o["gap"],
                         "hold": o["hold"], "abort": 12 if o["hole"] else None})
         ma = wb.WBMaster(masters[m], ops)
         mags.append(ma)
         agents.append(ma)
     gos = [bench.Schedule(g if bench.sched_has_one(g) else ["const", 1]) for g in case["go"]]
-    agents.append(bench.Driver(lambda t: {smods[j].go: gos[j].bit(t) for j in range(S)}))
+    errs = [bench.Schedule(e) if e is not None else None for e in (case.get("err") or [None] * S)]
+
+    def drive(t):
+        d = {smods[j].go: gos[j].bit(t) for j in range(S)}
+        for j in range(S):
+            if errs[j] is not None:
+                d[smods[j].err] = errs[j].bit(t)
+        return d
+    agents.append(bench.Driver(drive))
     mprobe = [bench.Probe([b.cyc, b.stb, b.we, b.adr, b.sel, b.dat_w, b.ack, b.err, b.dat_r]) for b in masters]
     sprobe = [bench.Probe([b.cyc, b.stb, b.we, b.adr, b.sel, b.dat_w, b.ack, b.err, b.dat_r]) for b in slaves]
     agents += mprobe + sprobe
@@ -116,7 +137,7 @@ def run_case(case):
 
     def inwin(j, wadr):
         o, s = case["wins"][j]
-        return o <= (wadr << 2) < o + s
+        return o <= (wadr << ash) < o + s
 
     if not all(a.finished() for a in mags):
         k = next(i for i, a in enumerate(mags) if not a.finished())
@@ -150,7 +171,7 @@ def run_case(case):
             owners[j] = i
             if kind != "arbiter" and kind != "p2p" and not inwin(j, adrj):
                 return bad("route-region", "%s: cycle %d: slave %d (window %#x+%#x) sees cyc for address %#x" %
-                           (kind, c, j, case["wins"][j][0], case["wins"][j][1], adrj << 2), key="wbic-region:" + kind, cls=cls)
+                           (kind, c, j, case["wins"][j][0], case["wins"][j][1], adrj << ash), key="wbic-region:" + kind, cls=cls)
             # ownership: bound master keeps the port while it keeps cyc
             p = owner_prev[j]
             if p is not None and p != i and mprobe[p].trace[c][0] and kind in ("shared", "arbiter", "crossbar"):
@@ -159,7 +180,7 @@ def run_case(case):
                 if still_here:
                     return bad("ownership", "%s: cycle %d: slave %d passed from master %d to master %d although master %d still asserts cyc" %
                                (kind, c, j, p, i, p), key="wbic-owner:" + kind, cls=cls)
-            if ackj and stbj:
+            if (ackj or errj) and stbj:
                 served[(i, j)] = served.get((i, j), 0) + 1
         owner_prev = owners
         # hole addresses reach nobody
@@ -169,7 +190,7 @@ def run_case(case):
                 hit = [j for j in range(S) if owners[j] == i]
                 if hit:
                     return bad("route-hole", "%s: cycle %d: master %d address %#x matches no region but slave %r sees the cycle" %
-                               (kind, c, i, a << 2, hit), key="wbic-hole:" + kind, cls=cls)
+                               (kind, c, i, a << ash, hit), key="wbic-hole:" + kind, cls=cls)
         # responses reach only the bound master, with the answering slave's data
         for i in range(M):
             cyci, stbi, wei, adri, seli, dati, acki, erri, dri = mv[i]
@@ -178,8 +199,11 @@ def run_case(case):
                 if not src:
                     return bad("ack-stray", "%s: cycle %d: master %d sees ack/err but no slave bound to it answers" % (kind, c, i),
                                key="wbic-ack:" + kind, cls=cls)
+                j = src[0]
+                if (acki, erri) != (sv[j][6], sv[j][7]):
+                    return bad("termination-kind", "%s: cycle %d: slave %d answers ack=%d err=%d, master %d sees ack=%d err=%d" %
+                               (kind, c, j, sv[j][6], sv[j][7], i, acki, erri), key="wbic-ack:" + kind, cls=cls)
                 if acki and not wei and cyci and stbi:
-                    j = src[0]
                     if dri != sv[j][8] and not (register and False):
                         return bad("data-return", "%s (register=%r): cycle %d: master %d reads %#x, slave %d drives %#x" %
                                    (kind, register, c, i, dri, j, sv[j][8]), key="wbic-data:" + kind, cls=cls)
@@ -210,11 +234,13 @@ def run_case(case):
             return bad("hole-answered", "%s: master %d request to unmapped %#x was acknowledged" % (kind, m, o["badr"]), key="wbic-hole:" + kind, cls=cls)
         j = 0 if kind in ("arbiter", "p2p") else next(jj for jj in range(S) if case["wins"][jj][0] <= o["badr"] < sum(case["wins"][jj]))
         per_ms[(m, j)] = per_ms.get((m, j), 0) + 1
-        off = ((o["badr"] >> 2) & 15) * 4
+        off = ((o["badr"] >> ash) & 15) * nb
+        if err and case.get("err_only"):
+            continue                     # terminated by err instead of ack: nothing written, no data returned
         if o["we"]:
-            models[j].write(off, 4, ((m + 1) << 24) | o["dat"], o["sel"])
+            models[j].write(off, nb, ((m + 1) << 24) | o["dat"], o["sel"])
         else:
-            exp = models[j].read(off, 4)
+            exp = models[j].read(off, nb)
             if dat_r != exp:
                 return bad("scoreboard", "%s %dx%d: master %d read of %#x returned %#x, slave %d memory holds %#x" %
                            (kind, M, S, m, o["badr"], dat_r, j, exp), key="wbic-data:" + kind, cls=cls)
@@ -258,6 +284,9 @@ def run_case(case):
     nt = simultaneous >= 1 and (waited >= 1 or kind == "crossbar")
     if any(o["hole"] for p in case["progs"] for o in p):
         cls.append("hole-access")
+    cls.append("dw%d" % dw)
+    if any(ev[4] for ev in events):
+        cls.append("err-terminated" + (":err-only" if case.get("err_only") else ":with-ack"))
     return ok(nt=nt, cls=cls, cycles=cyc)
 
 
